@@ -26,7 +26,7 @@ def conv(a, dtype=np.int64):
         return int(a['s'])
     if 'str' in a:
         return a['str']
-    return np.array([int(x) for x in a['a']], dtype=dtype)
+    return np.array([int(x) for x in a['a']], dtype=np.dtype(a['dt']) if a.get('dt') else dtype)
 
 
 def err(e):
@@ -122,6 +122,25 @@ def call(c):
                     out['repeat_differs'] = again[:3]
             except Exception as e2:  # noqa: BLE001
                 out['repeat_differs'] = type(e2).__name__
+            return out
+        if f in ('tobj', 'tspec'):
+            # one row, every argument a 1-element array of its own integer type
+            arrs = [np.array([int(v)], dtype=np.dtype(dt)) for v, dt in zip(c['vals'], c['dts'])]
+            before = [x.copy() for x in arrs]
+            if f == 'tobj':
+                sky, rr, r, cc, ff, fi, o = arrs
+                res = sdss_objid(r, cc, fi, o, rerun=rr, skyversion=sky, firstfield=ff)
+            else:
+                pl, fb, mj, r2, li, ix = arrs
+                kw = {}
+                if c.get('use') == 'line':
+                    kw['line'] = li
+                elif c.get('use') == 'index':
+                    kw['index'] = ix
+                res = sdss_specobjid(pl, fb, mj, r2, **kw)
+            out = {'ok': [int(x) for x in res], 'dtype': str(res.dtype)}
+            if any(not np.array_equal(x, y) or x.dtype != y.dtype for x, y in zip(arrs, before)):
+                out['inputs_modified'] = ['some array argument']
             return out
         if f in ('sweepobj', 'sweepspec'):
             i, lo, n, others = c['i'], c['lo'], c['n'], c['others']
